@@ -340,6 +340,7 @@ fn scenarios(tier: &str) -> Vec<(String, ScenMaker)> {
                 moving_clock: false,
                 alphabet: Alpha::Mutate,
                 victim: false,
+                front: Front::Raw,
             };
             let name = super::fsprops::mut_name(&o, "faults");
             v.push((
